@@ -106,7 +106,42 @@ def oracle_first_crossing(args):
     return not problems, {"steps": out[:12], "problems": problems[:4]}, {"problems": []}, "; ".join(problems[:3]) or "ok"
 
 
-ORACLES = {"first_crossing": oracle_first_crossing}
+@safe_oracle
+def oracle_surface(args):
+    """through TrajectoryCum.surface_hopping itself, for every value of the `hopping_probability` option: what is accumulated is
+    1 - prod exp(-G_i) with G_i = sum_n max(0, 2 Im(rho_kn W_nk) dt / rho_kk) the RAW total rate of the step (the Poisson form is
+    already what the accumulation does; nothing else is applied to the rates)"""
+    from .. import eleccommon as ec
+    rng = np.random.Generator(np.random.PCG64(args["seed"]))
+    c = ec.elec_case(rng, N=int(args["N"]), n=int(args["n"]), rho_kind="pure", scale=float(args.get("scale", 0.05)))
+    c["dt"] = float(args["dt"])
+    opts = {"zeta_list": [1e300] * 50}
+    if args.get("option") is not None:
+        opts["hopping_probability"] = args["option"]
+    t = ec.make_traj(c, "exp", cls="TrajectoryCum", **opts)
+    k = int(args["state"]) % c["N"]
+    t.state = k
+    e0, e1 = ec.elecs(c)
+    problems, Gsum = [], 0.0
+    for step in range(int(args["steps"])):
+        W = np.asarray(t.hamiltonian_propagator(e0, e1))
+        rho = np.asarray(t.rho)
+        g = 2.0 * np.imag(rho[k, :] * W[:, k]) * c["dt"] / np.real(rho[k, k])
+        g[k] = 0.0
+        g = np.maximum(g, 0.0)
+        Gsum += float(np.sum(g))
+        t.surface_hopping(e0, e1)
+        want = -math.expm1(-Gsum)
+        if not close(float(t.prob_cum), want, rtol=1e-9, atol=0.0):
+            problems.append("step %d, option %r: accumulated %r, 1 - prod exp(-G_i) = %r (sum of raw rates %r)"
+                            % (step, args.get("option"), float(t.prob_cum), want, Gsum))
+            break
+        t.propagate_electronics(e0, e1, c["dt"])
+    return not problems, {"accumulated": float(t.prob_cum), "G": Gsum, "problems": problems}, {"accumulated": -math.expm1(-Gsum)}, \
+        "; ".join(problems) or "ok"
+
+
+ORACLES = {"first_crossing": oracle_first_crossing, "surface": oracle_surface}
 
 
 def _gen_seq(rng, thorough):
@@ -174,6 +209,16 @@ def run(ctx):
     ctx.fingerprints["mudslide/cumulative_sh.py"] = fingerprint("mudslide/cumulative_sh.py", ["hopper", "__init__"])
     ctx.proofs()
     rng = ctx.rng
+    for i in range(ctx.budget(30, 1500)):
+        a = {"seed": int(rng.integers(1, 2 ** 31)), "N": int(rng.integers(2, 6)), "n": int(rng.integers(1, 3)), "state": int(rng.integers(0, 5)),
+             "dt": float(rng.choice([1.0, 10.0, 40.0])), "steps": int(rng.integers(1, 6)), "option": [None, "tully", "poisson"][i % 3],
+             "scale": float(rng.choice([0.05, 0.3]))}
+        ok, obs, req, text = oracle_surface(a)
+        ctx.case(("surface", a["option"], a["N"], float(obs["G"]) > 0.1))
+        ctx.count("surface_hopping:%s" % a["option"])
+        ctx.monitor("max_total_rate_through_surface_hopping", float(obs["G"]))
+        if not ok:
+            ctx.oracle_fail("cumulative-surface-hopping:%s" % a["option"], "surface", a, obs, req, text)
     cases, lines = [], []
     for i in range(ctx.budget(250, 20000)):
         seq, zetas, regime = _gen_seq(rng, ctx.thorough())
